@@ -269,7 +269,7 @@ def view(case):
 
 def campaigns(tier: str) -> List[Campaign]:
     return [Campaign("diff", c17_case(), check, quick=240, thorough=14400, quick_shards=8,
-                     required_classes={"class:added": 0.3, "class:deleted": 0.3, "class:increased": 0.12, "class:decreased": 0.12,
+                     required_classes={"unrounded_fractional_times": 0.05, "class:added": 0.3, "class:deleted": 0.3, "class:increased": 0.12, "class:decreased": 0.12,
                                        "class:unchanged": 0.3, "multi_rank_selection": 0.1, "short_names": 0.2,
                                        "short_name_merges": 0.1, "proper_rank_subset": 0.08,
                                        "same_label_ops_diff_first": 0.08, "one_name_under_two_categories": 0.2, "trace_object_loaded_before_the_diff": 0.2},
